@@ -14,6 +14,7 @@ import (
 	"strconv"
 	"strings"
 	"sync"
+	"time"
 
 	"github.com/hashicorp/raft"
 )
@@ -149,11 +150,13 @@ func (st *snapStore) damageNewest(dry bool) (fallback uint64, readable int) {
 }
 
 type snapStore struct {
-	failClose int // the next n sink.Close calls fail (disk error at finalize)
-	mu        sync.Mutex
-	c         *ctl
-	snaps     []*snap
-	seq       int
+	closeDelay time.Duration // Close lingers this long after the snapshot has become visible (slow fsync of the directory)
+	closing    bool          // a Close is lingering right now
+	failClose  int           // the next n sink.Close calls fail (disk error at finalize)
+	mu         sync.Mutex
+	c          *ctl
+	snaps      []*snap
+	seq        int
 }
 
 type snapSink struct {
@@ -208,6 +211,13 @@ func (k *snapSink) Close() error {
 		return out[i].meta.Index > out[j].meta.Index
 	})
 	k.st.snaps = out
+	if d := k.st.closeDelay; d > 0 {
+		k.st.closing = true
+		k.st.mu.Unlock()
+		time.Sleep(d)
+		k.st.mu.Lock()
+		k.st.closing = false
+	}
 	return nil
 }
 
